@@ -48,6 +48,7 @@ class Gen:
         self.slow_hint = []      # nodes whose completion schedules like to delay (ctl 'starve')
         self.pending_outside = []  # shared dependencies of candidates that the one-of consumer reads as well
         self.rec_inner_pool = []   # nodes inside finished recurrent subgraphs (hostile family rec_outside_consumer)
+        self.force_nested = False  # nested_exhaust_shape: the next recurrent subgraph gets a nested one, exhausted on outer re-iteration
 
     def new_node(self, **kw):
         nid = f'N{self.n}'
@@ -202,6 +203,39 @@ class Gen:
             cases.reverse()
         consumer['params'].append([f'rp{len(consumer["params"])}', ['sw', f'sw{self.sw}', d['id'], cases]])
 
+    def late_oneof_shape(self, consumer, visible):
+        """consumer(p: OneOf([G, M]), q: Input(B)), M(v: OneOf([A, B])), G fails: the inner one-of starts late (only
+        after G has failed) and finds its LATER candidate B already computed for the consumer; it still has to try A."""
+        rng = self.rng
+
+        def plain(flag=None, dep='N0'):
+            n = self.new_node()
+            n['params'].append(['a', ['in', dep]])
+            if flag:
+                self.flags[n['id']].add(flag)
+            return n
+        g = plain('cand')
+        g['plan']['fail'] = ['ALWAYS', rng.choice(['E1', 'E2', 'ERt'])]
+        if rng.random() < 0.4:
+            ins = list(self.p['inputs'])
+            g['plan']['fail_when'] = sorted(rng.sample(ins, 3))
+        self.finish(g)
+        a = plain('cand')
+        if rng.random() < 0.3:
+            a['plan']['fail'] = ['ALWAYS', 'E1']
+            a['plan']['fail_when'] = [rng.choice(list(self.p['inputs']))]
+        self.finish(a)
+        b = plain('cand')
+        self.finish(b)
+        m = self.new_node()
+        self.flags[m['id']].add('cand')
+        m['params'].append(['v', ['oneof', [a['id'], b['id']]]])
+        self.finish(m)
+        k = len(consumer['params'])
+        consumer['params'].append([f'lo{k}', ['oneof', [g['id'], m['id']]]])
+        consumer['params'].append([f'lo{k + 1}', ['in', b['id']]])
+        self.slow_hint.append(g['id'])
+
     def sibling_oneof_shape(self, consumer, visible):
         """consumer(u: OneOf([X, B1]), v: OneOf([X, B2])): two one-ofs of one consumer share their first candidate, so
         the second one finds X already started (possibly still in flight, possibly failing later) by the first."""
@@ -257,6 +291,8 @@ class Gen:
             return nid
         if not in_rec and not in_cand and depth > 0 and self.budget >= 6 and rng.random() < p.get('p_rec_paths_shape', 0.02):
             self.rec_paths_shape(node, local_visible)
+        if not in_rec and depth > 0 and self.budget >= 5 and rng.random() < p.get('p_late_oneof_shape', 0.02):
+            self.late_oneof_shape(node, local_visible)
         if not in_rec and depth > 0 and self.budget >= 4 and rng.random() < p.get('p_sibling_oneof_shape', 0.02):
             self.sibling_oneof_shape(node, local_visible)
         if not in_rec and depth > 0 and self.budget >= 5 and rng.random() < p.get('p_lazy_fail_shape', 0.03):
@@ -481,7 +517,23 @@ class Gen:
                 cands.append(c)
                 continue
             n0 = self.n
-            if not in_rec and i == 0 and self.budget >= 2 and rng.random() < self.p.get('p_deep_chain', 0.04):
+            if not in_rec and i == 0 and self.budget >= 2 and rng.random() < self.p.get('p_nested_exhaust_shape', 0.02):
+                # candidate -> outer recurrent subgraph -> nested inner one that is exhausted (no default) only while
+                # the outer one re-iterates; the next candidate has to take over
+                self.force_nested = True
+                mark = self.make_rec(list(visible), 2, in_cand=True, nested_ok=True)
+                self.force_nested = False
+                dest = self.nodes[mark[2]]
+                dest['plan'].pop('iter_by_attempt', None)
+                dest['plan'].pop('falsy_ad', None)
+                dest['plan']['want_iter'] = {str(v): rng.choice([1, 1, 0]) for v in self.p['inputs']}
+                cn = self.new_node()
+                self.flags[cn['id']].add('cand')
+                cn['params'].append(['a', mark])
+                self.finish(cn)
+                c = cn['id']
+                n = max(n, 2)
+            elif not in_rec and i == 0 and self.budget >= 2 and rng.random() < self.p.get('p_deep_chain', 0.04):
                 c = self.deep_chain(visible)
                 n = max(n, 2)
             else:
@@ -527,7 +579,7 @@ class Gen:
         s2 = self.new_node(start_of=True)
         s2['plan']['use_ad'] = False
         self.flags[s2['id']].add('private_rec')
-        src = rng.choice(outer_sub) if rng.random() < 0.7 else (rng.choice(self.shareable(visible, False) or ['N0']))
+        src = rng.choice(outer_sub) if (rng.random() < 0.7 or self.force_nested) else (rng.choice(self.shareable(visible, False) or ['N0']))
         s2['params'].append(['a', ['in', src]])
         self.finish(s2)
         chain = [s2['id']]
@@ -545,8 +597,20 @@ class Gen:
             # an input that only the outer subgraph re-computes
             d2['params'].append(['b', ['in', rng.choice(outer_sub)]])
         d2['plan'].update({'start': s2['id'], 'iter_by_attempt': rng.randint(0, mx + 1)})
+        if src in outer_sub and rng.random() < 0.35:
+            # exhausted (or not) only while the OUTER subgraph re-iterates: its arguments then carry the outer
+            # start node's additional_data
+            d2['plan']['iter_by_attempt'] = rng.randint(0, mx)
+            d2['plan']['iter_by_attempt_outer'] = rng.choice([mx + 1, mx + 1, 0])
+            d2['plan']['outer_start'] = outer_sub[0]
         if rng.random() < 0.5:
             d2['retry'] = {'use_default': True}
+        if self.force_nested:
+            d2['plan']['iter_by_attempt'] = rng.randint(0, mx)
+            d2['plan']['iter_by_attempt_outer'] = mx + 1
+            d2['plan']['outer_start'] = outer_sub[0]
+            d2.pop('retry', None)
+            self.force_nested = False
         self.finish(d2)
         return ['rec', s2['id'], d2['id'], mx]
 
@@ -565,8 +629,10 @@ class Gen:
         # chain of private nodes
         sub = [sid]
         length = rng.randint(0, 2)
+        if self.force_nested:
+            length = max(1, length)
         for _ in range(length):
-            if self.budget <= 1:
+            if self.budget <= 1 and not self.force_nested:
                 break
             mid = self.new_node()
             self.flags[mid['id']].add('private_rec')
@@ -606,7 +672,7 @@ class Gen:
                         self.finish(c)
                         cands.append(c['id'])
                     mid['params'].append(['o', ['oneof', cands]])
-            if nested_ok and self.budget >= 3 and rng.random() < self.p.get('p_rec_nested', 0.2):
+            if self.force_nested or (nested_ok and self.budget >= 3 and rng.random() < self.p.get('p_rec_nested', 0.2)):
                 mid['params'].append(['n', self.make_inner_rec(sub, visible)])
             self.decorate(mid, allow_fail=rng.random() < 0.3)
             self.finish(mid)
